@@ -16,6 +16,37 @@ CHECKS = {
     ),
 }
 
+CHECKS.update({
+    "C01": dict(
+        engine="LLSym",
+        technique="bounded symbolic execution of the real C++ DP from LLVM IR (clang -O1) with state merging at post-dominators; final obligations (optimality vs every bipartition/transmission sequence, witness attains cost, unflagged alleles agree with every column optimum, no reachable assert/throw) decided by z3 in linear integer arithmetic against a definition-level oracle; counter-examples replayed on a native g++ build and judged by brute force",
+        text="Per instance shape (read x column incidence, pedigree, genotype mode) ALL allele patterns, weights, recombination costs and likelihoods within the stated ranges are covered at once; the claim is 'holds for every input of every enumerated shape', nothing beyond the shapes.",
+        note="Trusted: clang/LLVM 14 IR as the meaning of the source, the LLSym interpreter and its libstdc++ externals (validated on every run by evaluating the merged symbolic result on random inputs against the native twin), z3, the short oracle. Outside: coverage > 3, > 6 columns, > 4 reads, weights >= 64, quartets, core.pyx marshalling.",
+        design_ref="DESIGN.md §2.3, §4 C01",
+    ),
+    "C02": dict(
+        engine="LLSym",
+        technique="same LLSym symbolic run of the real DP with entries constrained to error-free copies (allele = h[column] xor s[read]); z3 decides 'cost = 0 and each read-connected component carries the true haplotypes up to a swap, nothing flagged as tie'",
+        text="Solver lemma of C02 at the solver interface, for all true haplotypes / read origins / weights >= 1 of every enumerated shape. The surrounding pipeline stages are claimed by their own properties (C06, C07, C03, C04, C09); the byte-level BAM/VCF path is outside.",
+        note="As C01. Whole-pipeline composition with real BAM/VCF files is not encodable (htslib) and not claimed.",
+        design_ref="DESIGN.md §4 C02 (a)",
+    ),
+    "C05": dict(
+        engine="LLSym",
+        technique="LLSym symbolic run of the real DP on trio shapes in trusted-genotype mode; z3 decides: child alleles come from the respective parent's genotype, the transmission value selects the parental haplotype under one fixed labelling, read-less columns with a homozygous parent are phased",
+        text="Bounded: 2-3 column trios with up to 2-3 reads, all alleles/weights/recombination costs symbolic.",
+        note="As C01. The labelling convention of the transmission bits is not spelled out by the statement; the weaker reading (one fixed convention for all inputs) is asserted. Conflict/missing-genotype filtering (Python) is claimed by sub-check ped_filter when present.",
+        design_ref="DESIGN.md §4 C05",
+    ),
+    "C20": dict(
+        engine="PySym",
+        technique="bounded symbolic execution (PySym/z3) of whatshap.cli.phase.run_whatshap with the environment stubbed (VCF reader/writer, read input, exact solver as contract stub, in-memory files); every path replayed on the real module with real files",
+        text="All three list files are checked against what each (chromosome, family) step produced, for 1-2 chromosomes x {single, trio, trio + unrelated sample} x distrust on/off with solver-chosen read patterns, transmission vectors and genotype changes.",
+        note="Trusted: the stubs listed in the evidence (they stand for C01/C04); PySym proxies. Outside: real BAM/VCF I/O, more than 2 chromosomes / 2 families (the defect class is per-step file handling).",
+        design_ref="DESIGN.md §4 C20",
+    ),
+})
+
 NOT_APPLICABLE = {}
 
 
@@ -45,7 +76,7 @@ def main():
             na.append(dict(property_id=pid, reason=NOT_APPLICABLE.get(pid, "check not built yet in this round (see DESIGN.md §8 build order); no claim is made")))
     man = dict(
         version=1,
-        setup_cmd="./setup.sh && .venv/bin/python -m vf.build",
+        setup_cmd="./setup.sh && .venv/bin/python -m vf.build && .venv/bin/python -c 'from vf.llsym import pipeline; pipeline.ensure_ir2json(); pipeline.core_bitcode()'",
         hooks=dict(
             guard="WHATSHAP_VERIF",
             enable="no hook is compiled into whatshap: every harness drives public or module-level functions of the working tree directly (DESIGN.md §2)",
@@ -55,6 +86,7 @@ def main():
         ),
         engines=[
             dict(name="PySym", path="vf/pysym", serves_properties=[p for p in CHECKS], kind_free_text="concolic symbolic executor for the repo's Python on z3 (exhaustive path exploration by re-execution, per-path replay on the real build)"),
+            dict(name="LLSym", path="vf/llsym", serves_properties=[p for p in CHECKS if "LLSym" in CHECKS[p]["engine"]], kind_free_text="C++ core -> LLVM IR (clang++-14 -O1) -> JSON (ir2json, LLVM C++ API) -> symbolic IR interpreter with state merging, LIA obligations in z3, native g++ twin for replay"),
             dict(name="DeCy", path="vf/decy", serves_properties=[p for p in CHECKS if "DeCy" in CHECKS[p]["engine"]], kind_free_text="Cython .pyx -> Python via Cython's own parser, executed under PySym"),
         ],
         checks=checks,
